@@ -19,6 +19,11 @@ from .shrink import shrink_filter_scenario
 PROP = 'C11'
 LEVEL = 'exploration'
 TOL = 2e-6
+# numerical error also scales with the size of the numbers involved, not only with sigma: an
+# estimate of -8.4 deg with a posterior sigma of 0.016 deg (540 sigma) agreed to 3.8e-9
+# relative, i.e. 2.06e-6 sigma - a false alarm of the first thorough soak.  So every
+# comparison allows TOL*sigma (or TOL absolute) + REL_X*|reference value|.
+REL_X = 1e-7
 TIERS = {'quick': dict(runs=3000, budget_s=170, chunk=10, selftest=4),
          'thorough': dict(runs=30000, budget_s=1500, chunk=8, selftest=8)}
 
@@ -95,7 +100,8 @@ def compare(sc, m, res):
         if o.size == 0:
             return 0.0
         with np.errstate(all='ignore'):
-            err = np.abs(f - o) / scale_arr
+            slack = 0.0 if rel else REL_X * np.abs(o)
+            err = np.maximum(np.abs(f - o) - slack, 0.0) / scale_arr
         err = np.where(np.isfinite(err), err, np.inf)
         w, j = worst(err)
         if w > TOL:
@@ -163,7 +169,8 @@ def compare(sc, m, res):
         floor[:, 3:6] = 4e-16 * np.abs(c[VEL_COLS].to_numpy())
         floor[:, 6:9] = 4e-16 * 360
         with np.errstate(all='ignore'):
-            e_adj = np.where(pos, np.maximum(np.abs(err_f - err_o) - 4 * floor, 0.0)
+            e_adj = np.where(pos, np.maximum(np.abs(err_f - err_o) - 4 * floor
+                                             - REL_X * np.abs(err_o), 0.0)
                              / np.where(pos, sd_o, 1.0), 0.0)
         met['max_est_err'] = float(e_adj.max()) if e_adj.size else 0.0
         if met['max_est_err'] > TOL:
@@ -194,7 +201,8 @@ def compare(sc, m, res):
             viol.append(V('innovation', f"innovation row {j} of {name} has {len(fv)} "
                                         f"entries, reference {len(v)}", 'innovation/width'))
             break
-        d = float(np.max(np.abs(fv - v))) if np.isfinite(fv).all() else np.inf
+        d = float(np.max(np.maximum(np.abs(fv - v) - REL_X * np.abs(v), 0.0))) \
+            if np.isfinite(fv).all() else np.inf
         if d > worst_i:
             worst_i = d
         if d > TOL:
